@@ -14,7 +14,8 @@ import common
 from common import coq_list, coq_z
 
 THEOREMS = ["C12_identity", "C12_equal", "C12_children", "C12_wf", "C12_source", "C12_example",
-            "C12_ns_children", "C12_ns_unique", "C12_ns_result", "C12_ns_old_order_refuted"]
+            "C12_ns_children", "C12_ns_unique", "C12_ns_result", "C12_ns_old_order_refuted",
+            "C12_ns_wf", "C12_ns_equal", "C12_ns_identity", "C12_ns_single_set", "C12_ns_path_example"]
 
 KEYS = ["a", "b", "c", "d", "A"]
 QKEYS = ["q:t", "q:u", "x:n", "x:m"]
